@@ -260,3 +260,23 @@ func init() {
 	addControl(control{Prop: "C07", Name: "getvalue-bounds-in-positive-form", Rule: "R07a", Kind: "refactor",
 		File: "path.go", Old: "	if i.i < 0 || i.i >= len(arr) {\n		return nil, raiseMissing(cfg, i.String())\n	}\n	return arr[i.i], nil", New: "	if 0 <= i.i && i.i < len(arr) {\n		return arr[i.i], nil\n	}\n	return nil, raiseMissing(cfg, i.String())"})
 }
+
+func init() {
+	// ---------------- C17 ----------------
+	addControl(control{Prop: "C17", Name: "object-member-whitespace-skip-removed", Rule: "R17a", Kind: "mutant", Quick: true,
+		File: "parse/parse.go", Old: "		p.ignoreWhitespace()\n		if p.input == \"\" {\n			return nil, errors.New(\"dictionary expected ',' or '}'\")\n		}", New: "		if p.input == \"\" {\n			return nil, errors.New(\"dictionary expected ',' or '}'\")\n		}", Expect: "R17a/(*parse.flagParser).parseObj"})
+	addControl(control{Prop: "C17", Name: "colon-expected-right-after-key", Rule: "R17a", Kind: "mutant",
+		File: "parse/parse.go", Old: "		p.ignoreWhitespace()\n		if err := p.expectChar(':'); err != nil {", New: "		if err := p.expectChar(':'); err != nil {", Expect: "R17a/(*parse.flagParser).expectChar"})
+	addControl(control{Prop: "C17", Name: "array-skip-after-lookahead", Rule: "R17a", Kind: "mutant",
+		File: "parse/parse.go", Old: "		values = append(values, v)\n\n		p.ignoreWhitespace()\n		if p.input == \"\" {\n			return nil, errors.New(\"array closing ']' missing\")\n		}\n\n		next := p.input[0]\n		p.input = p.input[1:]\n", New: "		values = append(values, v)\n\n		if p.input == \"\" {\n			return nil, errors.New(\"array closing ']' missing\")\n		}\n\n		next := p.input[0]\n		p.input = p.input[1:]\n		p.ignoreWhitespace()\n", Expect: "R17a/(*parse.flagParser).parseArray"})
+	addControl(control{Prop: "C17", Name: "object-gated-by-array-flag", Rule: "R17c", Kind: "mutant", Quick: true,
+		File: "parse/parse.go", Old: "		if p.cfg.Object {\n			return p.parseObj()", New: "		if p.cfg.Array {\n			return p.parseObj()", Expect: "R17c/(*parse.flagParser).parseValue/gate Object"})
+	addControl(control{Prop: "C17", Name: "single-quote-ungated", Rule: "R17c", Kind: "mutant",
+		File: "parse/parse.go", Old: "		if p.cfg.StringSQuote {\n			return p.parseStringSQuote()\n		}\n		return p.parsePrimitive(stopSet)", New: "		return p.parseStringSQuote()", Expect: "R17c/(*parse.flagParser).parseValue/gate StringSQuote"})
+	addControl(control{Prop: "C17", Name: "ignorecommas-inverted", Rule: "R17c", Kind: "mutant",
+		File: "parse/parse.go", Old: "		if p.cfg.IgnoreCommas {\n			stopSet = \"\"\n		}", New: "		if !p.cfg.IgnoreCommas {\n			stopSet = \"\"\n		}", Expect: "R17c/(*parse.flagParser).parse/top-level stop set"})
+	addControl(control{Prop: "C17", Name: "squote-end-off-by-one", Rule: "R17b", Kind: "mutant",
+		File: "parse/parse.go", Old: "	p.input = in[i+2:]\n	return in[1 : 1+i], nil", New: "	p.input = in[i+3:]\n	return in[1 : 1+i], nil", Expect: "R17b/(*parse.flagParser).parseStringSQuote"})
+	addControl(control{Prop: "C17", Name: "lookahead-via-local-copy", Rule: "R17a", Kind: "refactor", Quick: true,
+		File: "parse/parse.go", Old: "		next := p.input[0]\n		p.input = p.input[1:]\n\n		switch next {\n		case '}':", New: "		rest := p.input\n		next := rest[0]\n		p.input = rest[1:]\n\n		switch next {\n		case '}':"})
+}
